@@ -67,6 +67,7 @@ func init() {
 			&vexplore.Scenario{Name: "pair-push-pull-every-length-over-stream-pipes", Mode: "enum", Reset: kit.ResetGlobals, Body: func() { c16.EveryLength(map[bool]int{false: 1200, true: 9000}[tier == "thorough"]) },
 				NeedCounters: []string{"every-length-written-exact", "every-length-received-exact"}},
 			&vexplore.Scenario{Name: "listener-closed-on-its-own-conversation-goes-on", Mode: "enum", Reset: kit.ResetGlobals, Body: c16.ListenerClosed, NeedCounters: []string{"conversation-went-on-after-listener-close"}},
+			&vexplore.Scenario{Name: "pair-stream-connection-idle-then-traffic", Mode: "enum", Reset: kit.ResetGlobals, Body: c16.IdleThenTraffic, NeedCounters: []string{"traffic-after-an-idle-period"}},
 			&vexplore.Scenario{Name: "pair-pull-stream-arrives-in-pieces", Mode: "enum", Reset: kit.ResetGlobals, Body: func() { c16.Chunking(tier == "thorough") },
 				NeedCounters: []string{"split-inside-length-prefix", "split-inside-payload", "one-byte-reads"}},
 			&vexplore.Scenario{Name: "pair-connection-lost-during-a-slow-event-callback", Mode: "enum", Reset: kit.ResetGlobals, Body: func() { c14.SlowHookWith(pair.NewSocket) }, NeedCounters: []string{"reconnected-after-a-loss-during-the-callback"}},
